@@ -102,8 +102,11 @@ def build(case, which):
       return hyp_lib.hyp_cluster(loss_of(case), copt, sopt, grads_hparams(case), hp,
                                  regularizer=reg)
     if which == 'mimelite':
+      # a clip bound that no update reaches changes nothing
+      clip = float(2 ** 20) if case.get('clip') else None
       return mime_lite_lib.mime_lite(loss_of(case), copt, hp, grads_hparams(case),
-                                     server_learning_rate=1.0, regularizer=reg)
+                                     server_learning_rate=1.0, regularizer=reg,
+                                     client_delta_clip_norm=clip)
     if which == 'mime':
       return mime_lib.mime(per_example_loss, copt, hp, grads_hparams(case),
                            server_learning_rate=2.0 ** -case['server_lr_exp'])
@@ -131,6 +134,10 @@ def run_pair(case, which):
   out = []
   for rnd in case['rounds']:
     clients = c01.cohort(case, rnd, datasets)
+    if case.get('probe') and clients:
+      # a round that is tried from this state first and thrown away (another
+      # cohort order): the state it started from is still the state
+      a.apply(sa, list(reversed(clients)))
     sa, da = a.apply(sa, clients)
     sb, db = b.apply(sb, clients)
     require(set(da) == set(db) == {c[0] for c in clients}, 'diagnostics_keys',
@@ -305,6 +312,10 @@ def case_strategy(draw, tier, relation):
   if relation in ('hyp1', 'mimelite'):
     # both take a regularizer: the counterpart is FedAvg on loss + regularizer
     case['reg'] = draw(st.booleans())
+  if relation == 'mimelite':
+    case['clip'] = draw(st.booleans())
+  if relation in ('fedprox0', 'hyp1', 'mimelite', 'apfl'):
+    case['probe'] = draw(st.integers(0, 2)) == 0
   if relation in ('fedprox0', 'mimelite'):
     # a loss that uses its key.  FedProx and MimeLite hand the client key to the
     # local steps exactly as FedAvg does, so the relation is asserted for such
@@ -319,6 +330,8 @@ def case_strategy(draw, tier, relation):
 def labels(case):
   return (['relation:' + case['relation']] + (['regularizer'] if case.get('reg') else []) +
           (['key_dependent_loss'] if case.get('noisy') else []) +
+          (['probe_round_discarded'] if case.get('probe') else []) +
+          (['clip_bound_never_reached'] if case.get('clip') else []) +
           c01.labels(case))
 
 
